@@ -62,10 +62,14 @@ pub const AT_SYSINFO_EHDR: u64 = 33;
 
 impl Drop for PtraceDumper {
     fn drop(&mut self) {
+        #[cfg(mdw_verif)]
+        crate::verif_hooks::emit("drop:begin", &[("pid", self.pid as i64)], None);
         // Always try to resume all threads (e.g. in case of error)
         self.resume_threads(error_graph::strategy::DontCare);
         // Always allow the process to continue.
         let _ = self.continue_process();
+        #[cfg(mdw_verif)]
+        crate::verif_hooks::emit("drop:end", &[("pid", self.pid as i64)], None);
     }
 }
 
@@ -157,6 +161,8 @@ pub enum ContinueProcessError {
 /// This handles special errno cases (ESRCH) which we won't consider errors.
 fn ptrace_detach(child: Pid) -> Result<(), DumperError> {
     let pid = nix::unistd::Pid::from_raw(child);
+    #[cfg(mdw_verif)]
+    crate::verif_hooks::emit("detach:before", &[("tid", child as i64)], None);
     ptrace::detach(pid, None).or_else(|e| {
         // errno is set to ESRCH if the pid no longer exists, but we don't want to error in that
         // case.
@@ -246,11 +252,30 @@ impl PtraceDumper {
         use DumperError::PtraceAttachError as AttachErr;
 
         let pid = nix::unistd::Pid::from_raw(child);
+        #[cfg(mdw_verif)]
+        crate::verif_hooks::emit("attach:before", &[("tid", child as i64)], None);
         // This may fail if the thread has just died or debugged.
         ptrace::attach(pid).map_err(|e| AttachErr(child, e))?;
+        #[cfg(mdw_verif)]
+        crate::verif_hooks::emit("attach:ok", &[("tid", child as i64)], None);
         loop {
             match wait::waitpid(pid, Some(wait::WaitPidFlag::__WALL)) {
                 Ok(status) => {
+                    #[cfg(mdw_verif)]
+                    crate::verif_hooks::emit(
+                        "wait:status",
+                        &[
+                            ("tid", child as i64),
+                            (
+                                "stopsig",
+                                match status {
+                                    wait::WaitStatus::Stopped(_, s) => s as i64,
+                                    _ => -1,
+                                },
+                            ),
+                        ],
+                        None,
+                    );
                     let wait::WaitStatus::Stopped(_, status) = status else {
                         return Err(DumperError::WaitPidError(
                             child,
@@ -267,12 +292,24 @@ impl PtraceDumper {
 
                     // Signals other than SIGSTOP that are received need to be reinjected,
                     // or they will otherwise get lost.
+                    #[cfg(mdw_verif)]
+                    crate::verif_hooks::emit(
+                        "cont:before",
+                        &[("tid", child as i64), ("sig", status as i64)],
+                        None,
+                    );
                     if let Err(err) = ptrace::cont(pid, status) {
                         return Err(DumperError::WaitPidError(child, err));
                     }
                 }
                 Err(Errno::EINTR) => continue,
                 Err(e) => {
+                    #[cfg(mdw_verif)]
+                    crate::verif_hooks::emit(
+                        "wait:err",
+                        &[("tid", child as i64), ("errno", e as i64)],
+                        None,
+                    );
                     ptrace_detach(child)?;
                     return Err(DumperError::WaitPidError(child, e));
                 }
@@ -302,6 +339,8 @@ impl PtraceDumper {
                 skip_thread = true;
             }
             if skip_thread {
+                #[cfg(mdw_verif)]
+                crate::verif_hooks::emit("skip", &[("tid", child as i64)], None);
                 ptrace_detach(child)?;
                 return Err(DumperError::DetachSkippedThread(child));
             }
@@ -328,11 +367,19 @@ impl PtraceDumper {
         });
 
         self.threads_suspended = true;
+        #[cfg(mdw_verif)]
+        crate::verif_hooks::emit("suspended", &[("n", self.threads.len() as i64)], None);
 
         failspot::failspot!(<crate::FailSpotName>::SuspendThreads soft_errors.push(DumperError::PtraceAttachError(1234, nix::Error::EPERM)))
     }
 
     pub fn resume_threads(&mut self, mut soft_errors: impl WriteErrorList<DumperError>) {
+        #[cfg(mdw_verif)]
+        crate::verif_hooks::emit(
+            "resume:begin",
+            &[("owed", self.threads_suspended as i64)],
+            None,
+        );
         if self.threads_suspended {
             for thread in &self.threads {
                 match Self::resume_thread(thread.tid) {
@@ -344,6 +391,8 @@ impl PtraceDumper {
             }
         }
         self.threads_suspended = false;
+        #[cfg(mdw_verif)]
+        crate::verif_hooks::emit("resume:end", &[], None);
     }
 
     /// Send SIGSTOP to the process so that we can get a consistent state.
@@ -353,6 +402,8 @@ impl PtraceDumper {
         failspot!(StopProcess bail(nix::Error::EPERM));
 
         signal::kill(nix::unistd::Pid::from_raw(self.pid), Some(signal::SIGSTOP))?;
+        #[cfg(mdw_verif)]
+        crate::verif_hooks::emit("stop_process:sent", &[("pid", self.pid as i64)], None);
 
         // Something like waitpid for non-child processes would be better, but we have no such
         // tool, so we poll the status.
@@ -362,11 +413,15 @@ impl PtraceDumper {
 
         loop {
             if let Ok(ProcState::Stopped) = Stat::from_file(&proc_file)?.state() {
+                #[cfg(mdw_verif)]
+                crate::verif_hooks::emit("stop_process:stopped", &[], None);
                 return Ok(());
             }
 
             std::thread::sleep(POLL_INTERVAL);
             if Instant::now() > end {
+                #[cfg(mdw_verif)]
+                crate::verif_hooks::emit("stop_process:timeout", &[], None);
                 return Err(StopProcessError::Timeout);
             }
         }
@@ -377,6 +432,8 @@ impl PtraceDumper {
     /// Unlike `stop_process`, this function does not wait for the process to continue.
     fn continue_process(&mut self) -> Result<(), ContinueProcessError> {
         signal::kill(nix::unistd::Pid::from_raw(self.pid), Some(signal::SIGCONT))?;
+        #[cfg(mdw_verif)]
+        crate::verif_hooks::emit("continue_process", &[("pid", self.pid as i64)], None);
         Ok(())
     }
 
@@ -410,6 +467,8 @@ impl PtraceDumper {
                 }
             };
 
+            #[cfg(mdw_verif)]
+            crate::verif_hooks::emit("enumerate:entry", &[("tid", tid as i64)], None);
             // Read the thread-name (if there is any)
             let name_result = failspot!(if ThreadName {
                 Err(std::io::Error::other(
@@ -430,6 +489,8 @@ impl PtraceDumper {
             self.threads.push(Thread { tid, name });
         }
 
+        #[cfg(mdw_verif)]
+        crate::verif_hooks::emit("enumerate:done", &[("n", self.threads.len() as i64)], None);
         Ok(())
     }
 
